@@ -196,14 +196,30 @@ def _pn(x):
 
 
 def _impl_petri(case):
+    if case.get("rounds"):
+        # ONE PetriNet object growing between rounds of queries (places / transitions added, transitions overwritten)
+        from synkit.CRN.Petri.net import PetriNet
+        net = PetriNet()
+        for p in case["places"]:
+            net.add_place("p%d" % p)
+        out = []
+        for trans, queries in case["rounds"]:
+            for tid, pre, post in trans:
+                net.add_transition("t%d" % tid, {"p%d" % p: w for p, w in pre}, {"p%d" % p: w for p, w in post})
+            out.append(_petri_block(net, queries))
+        return out
     net = _mk_net(case)
+    return _petri_block(net, case["queries"])
+
+
+def _petri_block(net, queries):
     order = sorted(net._place_index, key=lambda p: net._place_index[p])
     out = [[_pn(p) for p in order], sorted(net._place_index.values()) == list(range(len(order))),
            S([_pn(p) for p in net.places]),
            [[_pn(t), {_pn(p): w for p, w in tr.pre.items()}, {_pn(p): w for p, w in tr.post.items()}]
             for t, tr in net.transitions.items()]]
     qs = []
-    for marking, tid in case["queries"]:
+    for marking, tid in queries:
         m = {"p%d" % p: c for p, c in marking}
         m0 = dict(m)
         en = net.enabled(m, "t%d" % tid)
@@ -627,6 +643,16 @@ def coq_case(case):
         return "run_net %s %s %s %s %s %s" % (cnat(n), rx, cbool(case.get("mode") == "und"), cnat(case.get("k", n)),
                                              clist([clist([cnat(i) for i in c]) for c in case.get("cands", [])]),
                                              clist([cnat(i) for i in _species_insertion_order(case, n)]))
+    if t == "petri" and case.get("rounds"):
+        terms = []
+        cum = []
+        for trans, queries in case["rounds"]:
+            cum = cum + [list(x) for x in trans]
+            sub = coq_case(dict(t="petri", places=case["places"], trans=cum, queries=queries))
+            if sub is None:
+                return None
+            terms.append(sub)
+        return "L [%s]" % "; ".join(terms)
     if t == "petri":
         known = set(case["places"])
         for tid, pre, post in case["trans"]:
@@ -826,10 +852,26 @@ def _oracle_analyzer_history(case, is_siphon_full, is_trap_full, key_base):
 
 
 def _oracle_petri(case):
-    net = _mk_net(case)
-    tr = {tid: (pre, post) for tid, pre, post in case["trans"]}    # later definitions overwrite
+    if case.get("rounds"):
+        from synkit.CRN.Petri.net import PetriNet
+        net = PetriNet()
+        for p in case["places"]:
+            net.add_place("p%d" % p)
+        fails, cum = [], []
+        for k, (trans, queries) in enumerate(case["rounds"]):
+            for tid, pre, post in trans:
+                net.add_transition("t%d" % tid, {"p%d" % p: w for p, w in pre}, {"p%d" % p: w for p, w in post})
+            cum = cum + [list(x) for x in trans]
+            for f in _oracle_petri_queries(net, cum, queries):
+                fails.append(dict(f, detail="round %d on the same net object: %s" % (k, f["detail"])))
+        return fails
+    return _oracle_petri_queries(_mk_net(case), case["trans"], case["queries"])
+
+
+def _oracle_petri_queries(net, trans, queries):
+    tr = {tid: (pre, post) for tid, pre, post in trans}    # later definitions overwrite
     fails = []
-    for marking, tid in case["queries"]:
+    for marking, tid in queries:
         m = {p: c for p, c in marking}
         pre, post = tr[tid]
         want_en = all(m.get(p, 0) >= w for p, w in pre)
@@ -1178,7 +1220,8 @@ def nontrivial(case, obs):
             return False
         return (any(obs[3]) and not all(obs[3])) or (any(obs[4]) and not all(obs[4]))
     if t == "petri":
-        ens = [q[0] for q in obs[4]]
+        blocks = obs if case.get("rounds") else [obs]
+        ens = [q[0] for b in blocks for q in b[4]]
         return any(ens) and not all(ens)
     if t == "flow":
         ok, cert = obs[5], obs[6]
@@ -1245,8 +1288,10 @@ def distribution(cases, obss):
             d["net_with_siphon"] += bool(o[5])
             d["net_with_trap"] += bool(o[6])
         elif t == "petri":
-            d["petri_queries"] += len(o[4])
-            d["petri_enabled"] += sum(1 for q in o[4] if q[0])
+            for b in (o if c.get("rounds") else [o]):
+                d["petri_queries"] += len(b[4])
+                d["petri_enabled"] += sum(1 for q in b[4] if q[0])
+            d["petri_growing_nets"] = d.get("petri_growing_nets", 0) + bool(c.get("rounds"))
         elif t == "flow":
             d["flow_total"] += 1
             d["flow_realizable_verdicts"] += bool(o[5])
@@ -1457,6 +1502,18 @@ def gen_petri(n, rng):
             rng.shuffle(items)
             queries.append([[list(x) for x in items], tid])
         cases.append(dict(t="petri", kind="petri", places=places, trans=trans, queries=queries))
+        if len(trans) >= 2 and rng.random() < 0.4:
+            # the same construction spread over rounds on ONE net object: queries after every round
+            cut = rng.randint(1, len(trans) - 1)
+            rounds = []
+            for part in (trans[:cut], trans[cut:]):
+                sofar = sorted({t_[0] for r_ in rounds for t_ in r_[0]} | {t_[0] for t_ in part})
+                qs = [q for q in queries if q[1] in sofar][:4] or [[[], sofar[0]]]
+                rounds.append([part, qs])
+            if rng.random() < 0.5:            # a third round that overwrites the first transition
+                t0 = rounds[0][0][0]
+                rounds.append([[[t0[0], [list(x) for x in t0[2]], [list(x) for x in t0[1]]]], [q for q in queries if q[1] == t0[0]][:3] or [[[], t0[0]]]])
+            cases.append(dict(t="petri", kind="petri-growing", places=places, trans=trans, queries=queries, rounds=rounds))
     return cases
 
 
